@@ -130,10 +130,36 @@ class CSSParser:
         :returns:
             :class:`~cssutils.css.CSSStyleSheet`.
         """
+        return self.__parseString(
+            cssText,
+            encodingOverride=encoding,
+            href=href,
+            media=media,
+            title=title,
+            validate=validate,
+        )
+
+    def __parseString(
+        self,
+        cssText,
+        encodingOverride=None,
+        encoding=None,
+        href=None,
+        media=None,
+        title=None,
+        validate=None,
+    ):
+        """Parse `cssText`. `encodingOverride` is the encoding given by the
+        caller which governs the sheet and all imported sheets. `encoding`
+        is the encoding found for this sheet only (e.g. its HTTP charset),
+        imported sheets see it as encoding of the referring sheet.
+        """
         self.__parseSetting(True)
         # TODO: py3 needs bytes here!
         if isinstance(cssText, bytes):
-            cssText = codecs.getdecoder('css')(cssText, encoding=encoding)[0]
+            cssText = codecs.getdecoder('css')(
+                cssText, encoding=encodingOverride or encoding
+            )[0]
 
         if validate is None:
             validate = self._validate
@@ -148,7 +174,8 @@ class CSSParser:
         # tokenizing this ways closes open constructs and adds EOF
         sheet._setCssTextWithEncodingOverride(
             self.__tokenizer.tokenize(cssText, fullsheet=True),
-            encodingOverride=encoding,
+            encodingOverride=encodingOverride,
+            encoding=encoding,
         )
         self.__parseSetting(False)
         return sheet
@@ -206,17 +233,21 @@ class CSSParser:
         :returns:
             :class:`~cssutils.css.CSSStyleSheet`.
         """
-        encoding, enctype, text = cssutils.util._readUrl(
+        usedEncoding, enctype, text = cssutils.util._readUrl(
             href, fetcher=self.__fetcher, overrideEncoding=encoding
         )
-        if enctype == 5:
-            # do not use if defaulting to UTF-8
-            encoding = None
+        if enctype in (0, 5):
+            # 0: given by the caller, governs imported sheets too
+            # 5: do not use if defaulting to UTF-8
+            usedEncoding = None
 
         if text is not None:
-            return self.parseString(
+            # a detected encoding (HTTP, BOM, @charset) is the one of this
+            # sheet only, imported sheets are free to declare their own
+            return self.__parseString(
                 text,
-                encoding=encoding,
+                encodingOverride=encoding,
+                encoding=usedEncoding,
                 href=href,
                 media=media,
                 title=title,
